@@ -380,7 +380,7 @@ func c13Run(c *Ctx) {
 	c.S.Rule = "cases = (stream, function, reader kind, handler stop point); streams are concatenations of 1..3 documents (XML: <a/>, <a>x</a>, <a b=\"1\"><c/>t</a>, a document with XML declaration; JSON: {\"a\":1}, a string value with braces and quotes, a string ending in an escaped backslash, a string with an escaped backslash followed by an escaped quote, nested object/array with a bracket in a string) with separators {none, space, newline+tab} and optional trailing blanks; functions NewMapXmlReader[Raw], NewMapXmlSeqReader[Raw], NewMapJsonReader[Raw], HandleXmlReader[Raw], HandleJsonReader[Raw] (map handler returning false at every k), x2j-wrapper ToMap / XmlMsgsFromReader; reader kinds plain io.Reader and io.Reader+io.ByteReader. Schedules (E-choice): every Read call is a choice point - default full delivery, short read, (0,nil) (at most 2 in a row), final data together with io.EOF - explored exhaustively for deviation bound 0,1,2 (3 in thorough on single documents). Oracle: results = direct decodes in order then io.EOF, no over-read into the next document, Raw values as documented, handlers once per document in order and stop on false, termination within the reader horizon. non-trivial = executions with at least one deviation (counted in counters.deviating_schedules)."
 	c.S.Assumptions = []string{"JSON raw = the document with JSON-insignificant white space removed (the implementation strips it by design)", "the empty JSON object {} is not in the alphabet (handlers treat an empty Map as 'nothing arrived yet' by design)", "an io.ByteReader cannot legally deliver a byte together with an error, so that kind has only the default schedule"}
 	xmlDocs := []string{`<a/>`, `<a>x</a>`, `<a b="1"><c/>t</a>`, `<?xml version="1.0"?><a>y</a>`}
-	jsonDocs := []string{`{"a":1}`, `{"a":"}{\""}`, `{"a":"x\\"}`, `{"a":{"b":[1,{"c":"]"}]}}`, `{"e":"\\\"{"}`}
+	jsonDocs := []string{`{"a":1}`, `{"a":"}{\""}`, `{"a":"x\\"}`, `{"a":{"b":[1,{"c":"]"}]}}`, `{"e":"\\\"{"}`, `{"p":"C:\\dir\\ "}`}
 	xmlFns := []string{"NewMapXmlReader", "NewMapXmlReaderRaw", "NewMapXmlSeqReader", "NewMapXmlSeqReaderRaw", "HandleXmlReader", "HandleXmlReaderRaw", "x2j-wrapper.ToMap", "x2j-wrapper.XmlMsgsFromReader"}
 	jsonFns := []string{"NewMapJsonReader", "NewMapJsonReaderRaw", "HandleJsonReader", "HandleJsonReaderRaw"}
 	maxDocs := 2
